@@ -68,6 +68,10 @@ def cases(tier, seed):
     for sysname in ("pm", "pendulum", "ball", "pm_pendulum"):
         for s in SOLVERS:
             out.append({"kind": "object", "solver": s, "system": sysname})
+    # truncated runs (a forced non-convergence, see vp/core/faults.py): the returned object must still be a consistent Solution
+    for s, sysname, npts in (("BackwardEuler", "ball", 8), ("BackwardEuler", "pendulum", 6), ("Newton", "static_pm", 4), ("ScipyIVP", "pendulum", 1), ("ScipyDAE", "pendulum", 1)):
+        for k in range(npts):
+            out.append({"kind": "object", "solver": s, "system": sysname, "truncate_at": k})
     out.append({"kind": "object", "solver": "Riks", "system": "truss"})
     out.append({"kind": "object", "solver": "Newton", "system": "static_pm"})
     return out
@@ -173,8 +177,29 @@ def _check_object(case):
     fails = []
     system = _object_system(sysname)
     letters = {"solver": name, "system": sysname}
+    trunc = case.get("truncate_at")
+    if trunc is not None:
+        from vp.core import faults
+        from vp.props.c21 import DYN
+
+        letters["truncate_at"] = trunc
+        plan = faults.Plan((trunc,))
+        cfg = DYN[name]
+        with quiet():
+            with faults.Interposer(plan, modules=cfg.get("modules", ()), scipy_mod=cfg.get("scipy_mod")):
+                try:
+                    if name == "Newton":
+                        sol = S.Newton(system, n_load_steps=3, verbose=False).solve()
+                    else:
+                        sol = _solver(name, system, 0.2 + 0.07, 0.01).solve()
+                except Exception:
+                    return [], 1, 0, {f"object:{name}:truncated:raised"}
+        if not any(r["forced"] and r["effective"] for r in plan.log):
+            return [], 1, 0, {f"object:{name}:truncated:void"}
     with quiet():
-        if name == "Newton":
+        if trunc is not None:
+            pass
+        elif name == "Newton":
             sol = S.Newton(system, n_load_steps=3, verbose=False).solve()
         elif name == "Riks":
             sol = S.Riks(system, la_arc_span=[-0.2, 0.2], la_arc0=1e-3, iter_goal=3, max_load_steps=5).solve()
@@ -231,7 +256,7 @@ def _check_object(case):
             os.rmdir(d)
         except OSError:
             pass
-    return fails, 1, nt, {f"object:{name}"}
+    return fails, 1, max(nt, 1 if trunc is not None else 0), {f"object:{name}" + (":truncated" if trunc is not None else "")}
 
 
 def check(case):
